@@ -29,6 +29,8 @@ pub enum Then {
 pub enum S {
     Let(String, Option<Vec<E>>, E),
     Print(Vec<(E, char)>, bool), // items each followed by separator ';' ',' or ' ' (none); trailing semicolon flag
+    /// PRINT with an arbitrary run of separators after the last item (or no item at all): `PRINT A;,` `PRINT ,;` `PRINT ;;`
+    PrintT(Vec<(E, char)>, String),
     If(E, Then, Option<Then>),
     Goto(u64),
     Gosub(u64),
@@ -123,6 +125,20 @@ pub fn stext(s: &S) -> String {
                 t.push(';');
             }
             t
+        }
+        S::PrintT(items, tail) => {
+            let mut t = String::from("PRINT ");
+            for (i, (e, sep)) in items.iter().enumerate() {
+                t.push_str(&etext(e));
+                if i + 1 < items.len() {
+                    t.push_str(if *sep == ',' { ", " } else { "; " });
+                }
+            }
+            for c in tail.chars() {
+                t.push(c);
+                t.push(' ');
+            }
+            t.trim_end().to_string()
         }
         S::If(c, t, e) => {
             let mut x = format!("IF {} THEN {}", etext(c), then_text(t));
@@ -543,6 +559,33 @@ fn exec(r: &mut R, s: &S, li: usize, si: usize) -> Result<Flow, String> {
             r.out.push_str(&text);
             Ok(Flow::Next)
         }
+        S::PrintT(items, tail) => {
+            // a `;` suppresses the line feed only when it is the LAST thing in the statement; a `,` is a tab
+            let mut text = String::new();
+            for (i, (e, sep)) in items.iter().enumerate() {
+                match r.eval(e)? {
+                    V::N(x) => text.push_str(&format!("{}", x)),
+                    V::S(x) => text.push_str(&x),
+                }
+                if i + 1 < items.len() && *sep == ',' {
+                    text.push('\t');
+                }
+            }
+            let mut suppress = false;
+            for c in tail.chars() {
+                if c == ';' {
+                    suppress = true;
+                } else {
+                    text.push('\t');
+                    suppress = false;
+                }
+            }
+            if !suppress {
+                text.push('\n');
+            }
+            r.out.push_str(&text);
+            Ok(Flow::Next)
+        }
         S::If(c, t, e) => {
             let v = r.eval(c)?;
             let branch = if truthy(&v) { Some(t) } else { e.as_ref() };
@@ -778,7 +821,20 @@ fn gen_leaf(rng: &mut Rng, fns: &[String], has_data: bool, fail: bool) -> S {
                 let e = if rng.chance(1, 4) { gen_str(rng) } else { gen_num(rng, 2, fns) };
                 items.push((e, rng.pick(&[';', ';', ','])));
             }
-            S::Print(items, rng.chance(1, 5))
+            if rng.chance(1, 5) {
+                // every run of separators at the end, also with no item at all
+                if rng.chance(1, 5) {
+                    items.clear();
+                }
+                for it in items.iter_mut() {
+                    if it.1 == ' ' {
+                        it.1 = ';';
+                    }
+                }
+                S::PrintT(items, rng.pick(&[",", ";,", ",;", ";;", ",,", ";,,", ",;,", ";", ";,;"]).to_string())
+            } else {
+                S::Print(items, rng.chance(1, 5))
+            }
         }
         9 => S::Let(rng.pick(&["P", "Q"]).to_string(), Some(vec![gen_num(rng, 0, fns)]), gen_num(rng, 1, fns)),
         10 => S::Let("M".to_string(), Some(vec![E::Num(rng.pick(&[0.0, 1.0, 2.0])), E::Num(rng.pick(&[0.0, 3.0]))]), gen_num(rng, 1, fns)),
@@ -815,7 +871,34 @@ fn gen_leaf(rng: &mut Rng, fns: &[String], has_data: bool, fail: bool) -> S {
     }
 }
 
+/// 31..33 loops with distinct variables open at once, then a jump back into one of the FOR lines: re-entering an open
+/// loop forgets it and the loops inside it first, so it never overflows, while a 33rd distinct variable does
+fn gen_many_loops(rng: &mut Rng) -> (Program, Vec<&'static str>) {
+    let n = rng.pick(&[31usize, 32, 32, 32, 33]);
+    let var = |i: usize| format!("{}{}", (b'A' + (i / 10) as u8) as char, i % 10);
+    let mut prog: Program = vec![];
+    let mut ln = 10u64;
+    for i in 0..n {
+        prog.push((ln, vec![S::For(var(i), E::Num(1.0), E::Num(1.0), None)]));
+        ln += 10;
+    }
+    let back = 10 + 10 * rng.below(n) as u64;
+    prog.push((ln, vec![S::Print(vec![(E::Var("C".into()), ';')], false), S::Let("C".into(), None, E::Bin("+", Box::new(E::Var("C".into())), Box::new(E::Num(1.0))))]));
+    ln += 10;
+    prog.push((ln, vec![S::If(E::Bin("<", Box::new(E::Var("C".into())), Box::new(E::Num(3.0))), Then::Line(back), None)]));
+    ln += 10;
+    for i in (0..n).rev().take(rng.range(0, 3)) {
+        prog.push((ln, vec![S::Next(var(i))]));
+        ln += 10;
+    }
+    prog.push((ln, vec![S::Print(vec![(E::Str("done".into()), ';')], false)]));
+    (prog, vec!["many-loops"])
+}
+
 pub fn gen_program(rng: &mut Rng, allow_else_resume: bool) -> (Program, Vec<&'static str>) {
+    if rng.chance(1, 25) {
+        return gen_many_loops(rng);
+    }
     let mut lines: Vec<Vec<S>> = vec![];
     let mut feats: Vec<&'static str> = vec![];
     let mut fns: Vec<String> = vec![];
